@@ -50,5 +50,24 @@ PROPS["C15"] = {
     "assumptions": ["`git config --list -z` prints key [LF value] NUL per entry"],
 }
 
+PROPS["C06"] = {
+    "level_text": "Theorems: the Combine fold equals last-matching-rule semantics for EVERY option list / pattern semantics / name; prefix matching is the '/'-boundary relation; @REFGROUP is group membership; the regenerated option table pairs --X/--no-X with the documented patterns. Correspondence: real RefGroupBuilder + pflag parsing + Finish + Categorize in-process vs model vs spec on generated configs x option sequences x reference sets.",
+    "level_note": "Trusted: Lean kernel; Go's regexp (full-match oracle computed independently of git-sizer); pflag's in-order Set calls (exercised, not modelled); model tied to internal/refopts and git/ref_filter.go by differential testing.",
+    "technique": "Lean 4 proof (fold induction) + regenerated option table + differential correspondence",
+    "modules": ["GitSizer.Props.C06"],
+    "engines": [{"name": "refs", "quick": 12000, "thorough": 1200000, "per_shard": 3000}],
+    "rule": "refgroup configs (nesting, implicit parents, augmented built-ins, odd symbols) x option sequences of length 0-4 (prefixes cut anywhere, regexps with alternation/anchors/classes, @groups, boolean forms, deprecated spellings) x 3-10 reference names x with/without ROOT; one case in six exercises error branches; non-trivial = the configuration and options were accepted.",
+    "assumptions": ["regular-expression semantics = Go regexp on ^(?:p)$"],
+}
+PROPS["C07"] = {
+    "level_text": "Theorems: collectSymbols returns exactly the declared membership (own rules and all ancestors' rules; rule-less group = union of subgroups; Other bucket iff no subgroup matched) for EVERY forest (mutual induction over the rose tree); untraversed references get only 'ignored'; Categorize = specification. Correspondence as for C06 plus Groups() order and names; rendering of deep hierarchies is checked by the output engine (C11/C19).",
+    "level_note": "Trusted: as C06. One recorded finding (F10: reserved symbol names).",
+    "technique": "Lean 4 proof (mutual structural induction) + differential correspondence",
+    "modules": ["GitSizer.Props.C07"],
+    "engines": [{"name": "refs", "quick": 12000, "thorough": 1200000, "per_shard": 3000}],
+    "rule": "same generator as C06; symbols compared as multisets per reference, Groups() exactly.",
+    "assumptions": ["tallies are the per-symbol counts of the categoriser's output (recordReferenceGroup is a counter increment)"],
+}
+
 NOT_APPLICABLE = {p: "check under construction in this commit; see DESIGN.md §8 for the planned machinery" for p in
                   ["C%02d" % i for i in range(1, 20)]}
